@@ -10,15 +10,25 @@ state's done-callback, `ready` the scheduled callbacks (`Cb.adone f` = `_awaitab
 asyncio when `f` completes, run by a tick in ANY order).  `awaitableDone` is `_awaitable_done`, `wake` is
 `Waiting.execute` after its future completed.
 
-The theorems are the barrier's mechanism, for every configuration: a completed item is stored under its key and removed
+The first theorems are the barrier's mechanism, for every configuration: a completed item is stored under its key and removed
 from the awaiting set, the wait itself completes only when the set is empty, a failed item fails the wait, and a failed
 wait excepts the process without activating another step.  The barrier itself is a theorem over whole histories
-(`C10_barrier`): in every configuration reachable by any history of ticks, completions (in any order and placement),
-pause / play / kill / fail / cancel / call_soon events — everything except an external `resume()` on the workchain,
-which would bypass the barrier by design — the wait of the current WAITING state holds (or has parked) a result only
-when NOTHING is awaited any more; since the next outline step is activated only by a wait that holds a result
-(`Waiting.execute`), it starts only after every awaited item was processed by `_awaitable_done`.  That the processed
-results are all found in the context under their keys is decided by the correspondence check and the Python monitor.
+(`C10_barrier`, `C10_barrier_resume_ok`): in every configuration reachable by any history of ticks, completions (in any order
+and placement), pause / play / kill / fail / cancel / call_soon events and harmless `resume()`s — a `resume()` placed while
+something is still awaited bypasses the barrier, in the model as in the library (`C10_witness_resume_bypasses_barrier`) — the
+wait of the current WAITING state holds (or has parked) a result only when NOTHING is awaited any more; since the next outline
+step is activated only by a wait that holds a result (`Waiting.execute`), it starts only after every awaited item was processed
+by `_awaitable_done`.
+
+The second half of the file is about what that step finds (section "History level"):
+`C10_next_step_finds_every_result` / `C10_next_step_finds_result_under_its_key` — the activation that follows a wait is the
+wait's continuation, and at that moment the context maps the key of every awaitable of the wait to the result of its future, an
+earlier value under that key having been replaced (`C10_context_is_a_map`: the context has one binding per key, always);
+`C10_failed_item_never_activates` / `C10_held_failure_excepts` — if an awaited item failed or was killed and its callback was
+processed first, nothing is ever activated again and the chain ends EXCEPTED with exactly that error.  Their hypotheses
+(`B10.AwDistinct`, `B10.histOk`, `H6.histFuelOk`) are each shown necessary in the model by a witness.  Both registration styles
+(`to_context` / returned `ToContext`), children launched for real and `no_loop_errors` are decided by the correspondence check
+and the Python monitor.
 -/
 namespace PMF
 
